@@ -108,3 +108,32 @@ func solveAll(script string, budget time.Duration) []SolveResult {
 	wg.Wait()
 	return res
 }
+
+// crossSolve (thorough tier): every back end is asked; one `sat` fails the obligation (also when
+// another back end says unsat: a disagreement is never counted as proved); otherwise the obligation
+// is discharged by the back ends that answered unsat, all of which are named.
+func crossSolve(script string, budget time.Duration) SolveResult {
+	res := solveAll(script, budget)
+	var unsat []string
+	var secs float64
+	var other *SolveResult
+	for i := range res {
+		secs += res[i].Secs
+		switch res[i].Verdict {
+		case "sat":
+			r := res[i]
+			r.Secs = secs
+			return r
+		case "unsat":
+			unsat = append(unsat, res[i].Backend)
+		default:
+			other = &res[i]
+		}
+	}
+	if len(unsat) > 0 {
+		return SolveResult{Verdict: "unsat", Backend: strings.Join(unsat, "&"), Secs: secs}
+	}
+	r := *other
+	r.Secs = secs
+	return r
+}
